@@ -150,3 +150,21 @@ def gen_nested_case(rng, prop="C03"):
     if rng.random() < 0.3:
         setup.append([11, rng.choice([1, 2]), 0, opt(rng.choice([None, 100, 101]))])
     return [FUEL, bodies, [setup, [1]]]
+
+
+def gen_rearm_case(rng):
+    """Handlers that re-enqueue the very signal object they are handling ("re-arming"), among ties.
+    The 4th element maps handler id -> [cls, prio, src] so that the model case can spell the re-arm as an
+    ordinary enqueue of one more signal of that class (see loop_check.model_case)."""
+    p = rng.choice([0, 0, 1, -5])
+    ncls = 3
+    bodies = [[[10, 1], [9, rng.randrange(1, 3), [[13]], []]],          # handler 0: class 1, re-arms itself
+              [[10, 2]] + ([[9, 1, [[0, 1, p, []]], []]] if rng.random() < 0.5 else []),
+              [[10, 3], [9, 1, [[13]], []]]]                            # handler 2: class 3, re-arms once
+    rearm = {0: [1, p, []], 2: [3, p, []]}
+    setup = [0, [8, 1, 0, 1], [8, 2, 1, 2], [8, 3, 2, 3]]
+    for _ in range(rng.randrange(3, 12)):
+        setup.append([0, rng.choice([1, 2, 2, 3]), p, []])
+    if rng.random() < 0.4:
+        setup.append([0, 2, p + 1, []])
+    return [FUEL, bodies, [setup, [1]], rearm]
